@@ -4,6 +4,9 @@ VERIF = os.path.dirname(os.path.dirname(os.path.abspath(__file__)))
 ALL = ["C%02d" % i for i in range(1, 19)]
 
 CLAIMS = {
+    "C12": dict(cat="proof", design="§7 C12", technique="Lean 4 theorems about the reference-table machine (first definition wins for every definition sequence) + C18 unikey theorems + hook-based replay of the real parser's definition events; placement by metamorphic oracle",
+                text="Proved (Lean kernel, every sequence of definitions): a key resolves to the data of its FIRST definition, later definitions never change an existing resolution, undefined keys resolve to nothing; labels are case / white-space-run insensitive by the unikey theorems of C18 over CPython's full tables. Tie: every consumed definition reported by the MISTUNE_VERIF hook (stored or ignored duplicate, at any nesting) replayed through the machine reproduces the real env['ref_links'], and every reference-style link token carries the machine's resolution. That a definition LINE is recognised equally at top, bottom, middle, in a quote, list item, quote-in-list and at the nesting limit (6 deep, pure and alternating), that duplicates do not leak url or title, and that undefined labels stay literal is the metamorphic oracle on the implementation (tested).",
+                note="Partial: placement invariance of the definition syntax and the block-pass order of nested definitions are observed/tested, not proved. Trusted: Lean kernel; hook (add-only, guarded)."),
     "C09": dict(cat="proof", design="§7 C09", technique="Lean 4 scanner-level theorems (no rule can start inside a chunk claimed by the speedup text rule; lazy-repeat priority lemma) + kernel-decided obligations on the regenerated rule tables; HTML equality by differential oracle",
                 text="Proved (Lean kernel, any subject, any rule table): the lazy text rule `[\\s\\S]+?(?=…)` stops at the FIRST position where its look-ahead holds; a rule whose finite first-character set is inside the stop set cannot match at a non-stop character; hence no such rule can start strictly inside a claimed chunk. Kernel-decided on every run against the regenerated tables of all named configurations: the text regex has that shape, every inline rule other than line breaks/url_link starts only with stop characters, the block fast path is line-anchored, contains at most one newline and no later rule can start with a character it accepts. Byte-equality of the HTML (with speedup registered last, incl. mistune.html and hard_wrap) is the differential oracle on the implementation, not yet a theorem.",
                 note="Partial: theorems are at the scanner level; handler/rendering equivalence (HARD_LINEBREAK_RE.sub vs soft breaks, add_paragraph vs holes) is tested. Claim is for speedup registered after the other plugins. Trusted: Lean kernel, regex conformance tie, generator reach."),
@@ -58,7 +61,7 @@ def main():
         "setup_cmd": "./check --setup",
         "hooks": {"guard": "MISTUNE_VERIF", "enable": "MISTUNE_VERIF=1 in the environment (set by ./check); sources are imported from /repo/src, never from an installed copy",
                   "baseline_off_cmd": "cd /repo && env -u MISTUNE_VERIF /venv/bin/python -m pytest -q -p no:cacheprovider",
-                  "source_commits": [], "add_only": True},
+                  "source_commits": ["dfa6078"], "add_only": True},
         "engines": [{"name": "lean-model+correspondence", "path": "lean/ + harness/",
                      "serves_properties": sorted(CLAIMS), "kind_free_text": "Lean 4 model and theorems (lake build, #print axioms audit), data regenerated from the working tree by harness/extract.py, compiled model driver compared with the implementation in-process"}],
         "checks": checks,
